@@ -134,6 +134,18 @@ pub fn reuse(args: &[String]) -> i32 {
                     }
                     seqs = next;
                 }
+                // a generator WITHOUT a seed draws fresh OS entropy for every generate(): no call may repeat an
+                // earlier result, whatever was called in between (reset, generation from fuzzer bytes)
+                if ci < 12 {
+                    let s: Vec<u8> = vec![1, 4, 1, 2, 1, 4, 4, 1, 3, 1, 1];
+                    let mut g = build_generator(cfg, None);
+                    let mut calls = Vec::new();
+                    for &c in &s {
+                        let (res, d, n) = do_call(&mut g, c, &spec.x, &spec.y);
+                        calls.push(json!([res, d, n]));
+                    }
+                    out.push(json!({"t": "unseeded", "cfg": ci, "P": cfg.p, "seq": s, "calls": calls}).to_string());
+                }
                 let long = spec.long_calls.get(ci).copied().unwrap_or(0);
                 if long > 0 {
                     let mut x = spec.seed ^ (ci as u64).wrapping_mul(0x9e3779b97f4a7c15);
